@@ -391,11 +391,10 @@ struct FnExtractor {
           lab = "default";
           if (S) if (const Stmt *L = S->getLabel()) if (isa<CaseStmt>(L)) {
             lab = "case"; json::Array Vs; const Stmt *Cur = L; bool alsoDef = false;
-            while (Cur) {
-              if (auto *C2 = dyn_cast<CaseStmt>(Cur)) { Expr::EvalResult R2; if (C2->getLHS()->EvaluateAsInt(R2, X.C)) Vs.push_back((int64_t)R2.Val.getInt().getExtValue()); Cur = C2->getSubStmt(); }
-              else if (auto *D2 = dyn_cast<DefaultStmt>(Cur)) { alsoDef = true; Cur = D2->getSubStmt(); }
-              else break;
-            }
+            // every case label has its own CFG block (falling through to the next): the edge carries
+            // the outermost label's value only
+            if (auto *C2 = dyn_cast<CaseStmt>(Cur)) { Expr::EvalResult R2; if (C2->getLHS()->EvaluateAsInt(R2, X.C)) Vs.push_back((int64_t)R2.Val.getInt().getExtValue()); }
+            (void)alsoDef;
             SO["vs"] = std::move(Vs); if (alsoDef) SO["also_default"] = true;
           }
         }
